@@ -1,0 +1,331 @@
+// SPDX-License-Identifier: Apache-2.0 OR BSD-3-Clause
+
+//! Verification hooks (cargo feature `verif-hooks`, off by default).
+//!
+//! This module is only compiled when the `verif-hooks` feature is enabled. It provides a
+//! thread-local observer slot and thin shims around the synchronisation primitives and the
+//! volatile access primitives used by the crate. Every shim reports an [`Event`] to the observer
+//! of the calling thread (if any) *before* the real operation is performed and then delegates to
+//! the real primitive, so with no observer installed the crate behaves exactly as without the
+//! feature. An external model checker installs an observer to trace the operations, or to block
+//! the calling thread until a controlled scheduler lets it continue.
+#![allow(missing_docs)]
+#![allow(clippy::missing_safety_doc)]
+
+use std::cell::RefCell;
+use std::fmt;
+use std::ops::{Deref, DerefMut};
+use std::rc::Rc;
+use std::sync::atomic::Ordering;
+#[cfg(feature = "backend-atomic")]
+use std::sync::Arc;
+use std::sync::{LockResult, PoisonError, TryLockError, TryLockResult};
+
+/// Kind of an atomic operation performed on a hooked atomic integer.
+#[derive(Clone, Copy, Debug, PartialEq, Eq)]
+pub enum AtomicOp {
+    Load,
+    Store,
+    Swap,
+    FetchOr,
+    FetchAnd,
+    FetchXor,
+    FetchAdd,
+    FetchSub,
+    CompareExchange,
+}
+
+/// An operation that is about to be (or, for `Unlocked`, has just been) performed.
+#[derive(Clone, Copy, Debug, PartialEq, Eq)]
+pub enum Event {
+    /// A volatile read of `size` bytes at `addr` issued by the byte-copy helper.
+    VolatileRead { addr: usize, size: usize },
+    /// A volatile write of `size` bytes at `addr` issued by the byte-copy helper.
+    VolatileWrite { addr: usize, size: usize },
+    /// An atomic operation on the hooked atomic integer located at `obj`.
+    Atomic { obj: usize, op: AtomicOp },
+    /// `ArcSwap::load`-like operation on the object at `obj`.
+    SwapLoad { obj: usize },
+    /// `ArcSwap::store`-like operation on the object at `obj`.
+    SwapStore { obj: usize },
+    /// The calling thread wants to acquire the mutex at `obj`.
+    LockWanted { obj: usize },
+    /// The calling thread tries to acquire the mutex at `obj` without blocking.
+    TryLock { obj: usize },
+    /// The calling thread is about to release the mutex at `obj`.
+    Unlocking { obj: usize },
+    /// The calling thread has released the mutex at `obj` (notification, after the fact).
+    Unlocked { obj: usize },
+}
+
+type Observer = Rc<dyn Fn(&Event)>;
+
+thread_local! {
+    static OBSERVER: RefCell<Option<Observer>> = const { RefCell::new(None) };
+}
+
+/// Installs (or removes) the observer of the calling thread, returning the previous one.
+pub fn set_thread_observer(observer: Option<Observer>) -> Option<Observer> {
+    OBSERVER.with(|o| std::mem::replace(&mut *o.borrow_mut(), observer))
+}
+
+#[inline]
+fn emit(event: Event) {
+    // The observer is cloned out of the slot so that it may block or re-enter.
+    let observer = OBSERVER
+        .try_with(|o| o.try_borrow().ok().and_then(|o| o.clone()))
+        .ok()
+        .flatten();
+    if let Some(f) = observer {
+        f(&event)
+    }
+}
+
+/// Traced version of [`std::ptr::read_volatile`].
+#[inline]
+pub unsafe fn read_volatile<T>(src: *const T) -> T {
+    emit(Event::VolatileRead {
+        addr: src as usize,
+        size: std::mem::size_of::<T>(),
+    });
+    std::ptr::read_volatile(src)
+}
+
+/// Traced version of [`std::ptr::write_volatile`].
+#[inline]
+pub unsafe fn write_volatile<T>(dst: *mut T, src: T) {
+    emit(Event::VolatileWrite {
+        addr: dst as usize,
+        size: std::mem::size_of::<T>(),
+    });
+    std::ptr::write_volatile(dst, src)
+}
+
+/// Shim over [`std::sync::atomic::AtomicU64`] that reports every operation.
+#[derive(Default)]
+pub struct AtomicU64(std::sync::atomic::AtomicU64);
+
+impl fmt::Debug for AtomicU64 {
+    fn fmt(&self, f: &mut fmt::Formatter<'_>) -> fmt::Result {
+        fmt::Debug::fmt(&self.0, f)
+    }
+}
+
+impl From<u64> for AtomicU64 {
+    fn from(v: u64) -> Self {
+        Self::new(v)
+    }
+}
+
+macro_rules! atomic_rmw {
+    ($name:ident, $op:ident) => {
+        #[inline]
+        pub fn $name(&self, val: u64, order: Ordering) -> u64 {
+            self.emit(AtomicOp::$op);
+            self.0.$name(val, order)
+        }
+    };
+}
+
+impl AtomicU64 {
+    pub const fn new(v: u64) -> Self {
+        Self(std::sync::atomic::AtomicU64::new(v))
+    }
+
+    #[inline]
+    fn emit(&self, op: AtomicOp) {
+        emit(Event::Atomic {
+            obj: self as *const Self as usize,
+            op,
+        })
+    }
+
+    pub fn into_inner(self) -> u64 {
+        self.0.into_inner()
+    }
+
+    pub fn get_mut(&mut self) -> &mut u64 {
+        self.0.get_mut()
+    }
+
+    #[inline]
+    pub fn load(&self, order: Ordering) -> u64 {
+        self.emit(AtomicOp::Load);
+        self.0.load(order)
+    }
+
+    #[inline]
+    pub fn store(&self, val: u64, order: Ordering) {
+        self.emit(AtomicOp::Store);
+        self.0.store(val, order)
+    }
+
+    atomic_rmw!(swap, Swap);
+    atomic_rmw!(fetch_or, FetchOr);
+    atomic_rmw!(fetch_and, FetchAnd);
+    atomic_rmw!(fetch_xor, FetchXor);
+    atomic_rmw!(fetch_add, FetchAdd);
+    atomic_rmw!(fetch_sub, FetchSub);
+
+    #[inline]
+    pub fn compare_exchange(
+        &self,
+        current: u64,
+        new: u64,
+        success: Ordering,
+        failure: Ordering,
+    ) -> Result<u64, u64> {
+        self.emit(AtomicOp::CompareExchange);
+        self.0.compare_exchange(current, new, success, failure)
+    }
+
+    #[inline]
+    pub fn compare_exchange_weak(
+        &self,
+        current: u64,
+        new: u64,
+        success: Ordering,
+        failure: Ordering,
+    ) -> Result<u64, u64> {
+        self.emit(AtomicOp::CompareExchange);
+        // The strong version is used so that a controlled schedule is deterministic.
+        self.0.compare_exchange(current, new, success, failure)
+    }
+}
+
+/// Shim over [`std::sync::Mutex`] that reports lock and unlock operations.
+#[derive(Default)]
+pub struct Mutex<T>(std::sync::Mutex<T>);
+
+impl<T: fmt::Debug> fmt::Debug for Mutex<T> {
+    fn fmt(&self, f: &mut fmt::Formatter<'_>) -> fmt::Result {
+        fmt::Debug::fmt(&self.0, f)
+    }
+}
+
+/// Guard returned by the [`Mutex`] shim.
+pub struct MutexGuard<'a, T> {
+    obj: usize,
+    inner: Option<std::sync::MutexGuard<'a, T>>,
+}
+
+impl<T: fmt::Debug> fmt::Debug for MutexGuard<'_, T> {
+    fn fmt(&self, f: &mut fmt::Formatter<'_>) -> fmt::Result {
+        fmt::Debug::fmt(&self.inner, f)
+    }
+}
+
+impl<T> Mutex<T> {
+    pub const fn new(t: T) -> Self {
+        Self(std::sync::Mutex::new(t))
+    }
+
+    fn obj(&self) -> usize {
+        self as *const Self as usize
+    }
+
+    pub fn lock(&self) -> LockResult<MutexGuard<'_, T>> {
+        let obj = self.obj();
+        emit(Event::LockWanted { obj });
+        match self.0.lock() {
+            Ok(g) => Ok(MutexGuard {
+                obj,
+                inner: Some(g),
+            }),
+            Err(e) => Err(PoisonError::new(MutexGuard {
+                obj,
+                inner: Some(e.into_inner()),
+            })),
+        }
+    }
+
+    pub fn try_lock(&self) -> TryLockResult<MutexGuard<'_, T>> {
+        let obj = self.obj();
+        emit(Event::TryLock { obj });
+        match self.0.try_lock() {
+            Ok(g) => Ok(MutexGuard {
+                obj,
+                inner: Some(g),
+            }),
+            Err(TryLockError::Poisoned(e)) => {
+                Err(TryLockError::Poisoned(PoisonError::new(MutexGuard {
+                    obj,
+                    inner: Some(e.into_inner()),
+                })))
+            }
+            Err(TryLockError::WouldBlock) => Err(TryLockError::WouldBlock),
+        }
+    }
+}
+
+impl<T> Deref for MutexGuard<'_, T> {
+    type Target = T;
+
+    fn deref(&self) -> &T {
+        self.inner.as_ref().unwrap()
+    }
+}
+
+impl<T> DerefMut for MutexGuard<'_, T> {
+    fn deref_mut(&mut self) -> &mut T {
+        self.inner.as_mut().unwrap()
+    }
+}
+
+impl<T> Drop for MutexGuard<'_, T> {
+    fn drop(&mut self) {
+        emit(Event::Unlocking { obj: self.obj });
+        drop(self.inner.take());
+        emit(Event::Unlocked { obj: self.obj });
+    }
+}
+
+/// Shim over `arc_swap::ArcSwap` that reports load and store operations.
+#[cfg(feature = "backend-atomic")]
+pub struct ArcSwap<T>(arc_swap::ArcSwap<T>);
+
+#[cfg(feature = "backend-atomic")]
+impl<T: fmt::Debug> fmt::Debug for ArcSwap<T> {
+    fn fmt(&self, f: &mut fmt::Formatter<'_>) -> fmt::Result {
+        fmt::Debug::fmt(&self.0, f)
+    }
+}
+
+#[cfg(feature = "backend-atomic")]
+impl<T> ArcSwap<T> {
+    pub fn new(val: Arc<T>) -> Self {
+        Self(arc_swap::ArcSwap::new(val))
+    }
+
+    pub fn from_pointee(val: T) -> Self {
+        Self(arc_swap::ArcSwap::from_pointee(val))
+    }
+
+    fn obj(&self) -> usize {
+        self as *const Self as usize
+    }
+
+    pub fn load(&self) -> arc_swap::Guard<Arc<T>> {
+        emit(Event::SwapLoad { obj: self.obj() });
+        self.0.load()
+    }
+
+    pub fn load_full(&self) -> Arc<T> {
+        emit(Event::SwapLoad { obj: self.obj() });
+        self.0.load_full()
+    }
+
+    pub fn store(&self, val: Arc<T>) {
+        emit(Event::SwapStore { obj: self.obj() });
+        self.0.store(val)
+    }
+
+    pub fn swap(&self, val: Arc<T>) -> Arc<T> {
+        emit(Event::SwapStore { obj: self.obj() });
+        self.0.swap(val)
+    }
+
+    pub fn into_inner(self) -> Arc<T> {
+        self.0.into_inner()
+    }
+}
